@@ -9,7 +9,7 @@ const KEY128: [u8; 16] = [0x2b, 0x7e, 0x15, 0x16, 0x28, 0xae, 0xd2, 0xa6, 0xab, 
 /// in two calls equals decrypting in one call, and both equal data XOR AES_k(LE128(1 + i/16))
 /// computed block by block with the `aes` crate directly (little-endian counter starting at 1,
 /// key stream position carried across calls, second block used from byte 16 on).
-// @h prop=C16,C09 tier=quick feat=aes t=900 mem=10
+// @h prop=C16,C09 tier=dev feat=aes t=900 mem=10
 #[kani::proof]
 #[kani::unwind(20)]
 #[kani::stub(core::arch::x86_64::__cpuid, crate::verif_kit::stub_cpuid)]
